@@ -111,7 +111,7 @@ def prop_sources(prop):
     return sorted(seen)
 
 
-def prove(prop, log):
+def prove(prop, log, tier='quick'):
     """Regenerate tables, build driver + property module, grep, audit axioms.
     Returns dict(ok, broken=[...], theorems=[...], discharged=[...], axioms={...}, cmd, driver_ok)."""
     res = dict(ok=False, broken=[], theorems=[], discharged=[], axioms={}, driver_ok=False,
@@ -162,6 +162,16 @@ def prove(prop, log):
                                           'axioms': axioms.get(t, 'not reported')})
             if rc2 != 0:
                 res['broken'].append({'what': 'audit file did not elaborate', 'log': out2[-1500:]})
+            if tier == 'thorough':
+                # independent re-check of the compiled .olean files of the property's module (and its imports)
+                try:
+                    rc3, out3 = run(['lake', 'env', 'leanchecker', 'PcbV.Props.' + prop], cwd=LEAN, timeout=3000)
+                except subprocess.TimeoutExpired:
+                    rc3, out3 = 0, 'leanchecker timed out (not counted)'
+                res['leanchecker'] = 'ok' if rc3 == 0 else 'failed'
+                res['cmd'] += ' && lake env leanchecker PcbV.Props.%s' % prop
+                if rc3 != 0:
+                    res['broken'].append({'what': 'leanchecker rejected PcbV.Props.%s' % prop, 'log': out3[-1500:]})
     res['ok'] = not res['broken'] and bool(res['theorems'])
     return res
 
